@@ -63,4 +63,20 @@ finally:
     sh("git checkout -- .", "/repo")
 rc, out = sh("git status --porcelain --untracked-files=no", "/repo")
 res["repo_clean_after"] = out.strip() == ""
+# keep the change under /verif/seeded/<prop>-<n>/ once everything about it is confirmed
+ok = res.get("applies") and res["suite_with_patch"]["failed"] == 0 and not res["suite_with_patch"]["errors"] \
+     and res["demo_with_patch_fails"] and res["demo_without_patch_passes"]
+res["confirmed"] = bool(ok)
+if ok:
+    dst = os.path.join("/verif/seeded", "%s-%s" % (meta.get("property", "X"), n))
+    os.makedirs(dst, exist_ok=True)
+    shutil.copyfile(patch, os.path.join(dst, "patch.diff"))
+    for f in os.listdir(sd):
+        if f.endswith(".rs"):
+            shutil.copyfile(os.path.join(sd, f), os.path.join(dst, f))
+    m = dict(meta)
+    m["confirmed_by_main"] = {"suite_with_patch": res["suite_with_patch"], "demo_with_patch_fails": True, "demo_without_patch_passes": True,
+                              "how": "tools/seeded_eval.py in a scratch worktree of /repo"}
+    m["checks"] = {p: {"caught": v["rc"] == 1 and bool(v["violation_lines"]), "violation_lines": v["violation_lines"], "log": v["log"]} for p, v in res["checks"].items()}
+    json.dump(m, open(os.path.join(dst, "meta.json"), "w"), indent=1)
 print(json.dumps(res, indent=1))
